@@ -2,6 +2,7 @@ import Srctools.Wire
 import Srctools.Model.C11
 import Srctools.Gen.Bspfmt
 import Srctools.Model.C11Ent
+import Srctools.Model.C11Lumps
 import Srctools.Gen.Tok
 /-! Driver for the C11 models (struct codec, RLE, index builders, lump encoders).
 requests (bytes are arrays of 0..255, text arrays of code points):
@@ -23,6 +24,14 @@ requests (bytes are arrays of 0..255, text arrays of code points):
   {"op":"prop_read","version":[cp…],"d":[b…]}            → {"vals":[v…]} | {"err":e}       (reader segments)
   {"op":"ent_write","ents":[[line…]…]}                   → {"r":[cp…]}    line = [key, value] | [name, target, input, params, delay, times, comma]
   {"op":"ent_read","s":[cp…]}                            → {"ents":[[[key],[value],kind, null|[target,input,params,delay,times,comma]]…]…]} | {"err":…}
+  {"op":"x_faces","layout":L,"useOrig":b,"tabs":{texinfo,planes,surfedges,prims,origFaces},"faces":[{…}]}
+        → {"bytes":[b…],"faceids":[b…],"tabs":{…}} | {"err":e}      faces writer with its finder closures (object numbers)
+  {"op":"x_brushes","layout":L,"vitamin":b,"tabs":{planes,texinfo},"sides":[[id,{…}]…],"brushes":[{contents,sides}]}
+        → {"brushes":[b…],"sides":[b…],"tabs":{…}}
+  {"op":"x_leafs","layout":L,"cfg":{vitamin,hasAmbient,areaOff},"tabs":{faces,brushes},"leafs":[{…}]}
+        → {"leafs":[b…],"leaffaces":[b…],"leafbrushes":[b…],"mindist":[b…],"tabs":{…}}
+  {"op":"x_nodes","layout":L,"tabs":{planes,leafs,faces},"nodes":[id…],"nd":[[id,{…}]…],"fuel":n}
+        → {"bytes":[b…],"nodes":[id…],"tabs":{…}} | {"err":"fuel"}
   {"op":"gen"}                                           → facts extracted from the source
 -/
 open Lean StructCodec C11
@@ -109,6 +118,46 @@ def nameGuard (fn : String) : Option (Nat × Bool) :=
   match Gen.Bspfmt.strSites.find? (fun s => s.1 == fn && (match wireOf s.2.1 with | some [FieldFmt.str _] => true | _ => false)) with
   | some s => some (s.2.2.1, s.2.2.2.1)
   | none => none
+
+
+def natsOf (j : Json) (k : String) : Except String (List Nat) := do Wire.natList (← j.getObjVal? k)
+def intOf (j : Json) (k : String) : Except String Int := do (← j.getObjVal? k).getInt?
+def natOf (j : Json) (k : String) : Except String Nat := do (← j.getObjVal? k).getNat?
+def boolOf (j : Json) (k : String) : Except String Bool := do (← j.getObjVal? k).getBool?
+def optNatOf (j : Json) (k : String) : Except String (Option Nat) := do
+  match j.getObjVal? k with
+  | .ok Json.null => pure none
+  | .ok x => pure (some (← x.getNat?))
+  | .error _ => pure none
+def optIntOf (j : Json) (k : String) : Except String (Option Int) := do
+  match j.getObjVal? k with
+  | .ok Json.null => pure none
+  | .ok x => pure (some (← x.getInt?))
+  | .error _ => pure none
+
+def packRecs (rec layout : String) (rows : List (List Val)) : Except String Json :=
+  match (findPair rec layout).bind (fun p => wireCat p.writer) with
+  | none => throw s!"no format for {rec}/{layout}"
+  | some fmt =>
+    match packMany fmt rows with
+    | .ok b => pure (ofBytes b)
+    | .error e => pure (errJson (structErr e))
+
+def val6 (j : Json) : Except String (Val × Val × Val × Val × Val × Val) := do
+  let a ← valsOf (← j.getObjVal? "b")
+  match a with
+  | [b0, b1, b2, b3, b4, b5] => pure (b0, b1, b2, b3, b4, b5)
+  | _ => throw "need 6 bounds"
+
+def childOf (j : Json) : Except String ChildV := do
+  match j.getObjVal? "leaf" with
+  | .ok x => pure (.leaf (← x.getNat?))
+  | .error _ => pure (.node (← (← j.getObjVal? "node").getNat?))
+
+def lookupD {α : Type} (tbl : List (Nat × α)) (d : α) (k : Nat) : α :=
+  match tbl.find? (·.1 == k) with
+  | some p => p.2
+  | none => d
 
 def bytesList (j : Json) : Except String (List Bytes) := do
   let a ← j.getArr?
@@ -271,6 +320,84 @@ def handle (j : Json) : Except String Json := do
                 Wire.codesOfStr d, Wire.codesOfStr n, Json.bool c]
             | none => Json.null)])).toArray)).toArray)])
     | .error e => pure (errJson (reprStr e))
+  | "x_faces" =>
+    let layout ← j.getObjValAs? String "layout"
+    let uo ← boolOf j "useOrig"
+    let tj ← j.getObjVal? "tabs"
+    let t : FaceTabs := FaceTabs.mk (← natsOf tj "texinfo") (← natsOf tj "planes") (← natsOf tj "surfedges")
+      (← natsOf tj "prims") (← natsOf tj "origFaces")
+    let fj ← (← j.getObjVal? "faces").getArr?
+    let fs ← fj.toList.mapM fun f => do
+      let lm ← Wire.intList (← f.getObjVal? "lm")
+      let ls ← bytesOf (← f.getObjVal? "ls")
+      pure (FaceV.mk (← natOf f "plane") (← boolOf f "sameDir") (← boolOf f "onNode")
+              (← natsOf f "edges") (← optNatOf f "texinfo") (← intOf f "dispinfo")
+              (← intOf f "fog") ls (← intOf f "lightOff")
+              (UInt32.ofNat (← natOf f "area")) lm[0]! lm[1]! lm[2]! lm[3]!
+              (← optNatOf f "orig") (← natsOf f "prims") (← boolOf f "dyn")
+              (← intOf f "smoothing") (← optIntOf f "hid"))
+    match writeFaces Gen.Bspfmt.findOrExtendBounded uo t fs with
+    | .error e => pure (errJson (lumpErr e))
+    | .ok (recs, hids, t') =>
+      pure (Json.mkObj [("bytes", ← packRecs "faces" layout recs),
+        ("faceids", ← packRecs "faceids" layout (hids.map (fun h => [Val.int h]))),
+        ("tabs", Json.mkObj [("texinfo", Wire.ofNatList t'.texinfo), ("planes", Wire.ofNatList t'.planes),
+          ("surfedges", Wire.ofNatList t'.surfedges), ("prims", Wire.ofNatList t'.prims), ("origFaces", Wire.ofNatList t'.origFaces)])])
+  | "x_brushes" =>
+    let layout ← j.getObjValAs? String "layout"
+    let vit ← boolOf j "vitamin"
+    let tj ← j.getObjVal? "tabs"
+    let t : BrushTabs := { planes := ← natsOf tj "planes", texinfo := ← natsOf tj "texinfo" }
+    let sj ← (← j.getObjVal? "sides").getArr?
+    let sides ← sj.toList.mapM fun p => do
+      let a ← p.getArr?
+      let o := a[1]!
+      pure ((← (a[0]!).getNat?), SideV.mk (← natOf o "plane") (← natOf o "texinfo") (← intOf o "dispinfo")
+             (← boolOf o "bevel") (← natOf o "bits"))
+    let bj ← (← j.getObjVal? "brushes").getArr?
+    let bs ← bj.toList.mapM fun b => do
+      pure ({ contents := ← intOf b "contents", sides := ← natsOf b "sides" } : BrushV)
+    let r := writeBrushes Gen.Bspfmt.findOrExtendBounded vit (lookupD sides ⟨0, 0, 0, false, 0⟩) t bs
+    pure (Json.mkObj [("brushes", ← packRecs "brushes" layout r.1), ("sides", ← packRecs "brushsides" layout r.2.1),
+      ("tabs", Json.mkObj [("planes", Wire.ofNatList r.2.2.planes), ("texinfo", Wire.ofNatList r.2.2.texinfo)])])
+  | "x_leafs" =>
+    let layout ← j.getObjValAs? String "layout"
+    let cj ← j.getObjVal? "cfg"
+    let c : LeafCfg := { vitamin := ← boolOf cj "vitamin", hasAmbient := ← boolOf cj "hasAmbient", areaOff := ← natOf cj "areaOff" }
+    let tj ← j.getObjVal? "tabs"
+    let t : LeafTabs := { faces := ← natsOf tj "faces", brushes := ← natsOf tj "brushes" }
+    let lj ← (← j.getObjVal? "leafs").getArr?
+    let ls ← lj.toList.mapM fun l => do
+      let (b0, b1, b2, b3, b4, b5) ← val6 l
+      pure (LeafV.mk (← intOf l "contents") (← intOf l "cluster") (← natOf l "area") (← natOf l "flags")
+              b0 b1 b2 b3 b4 b5 (← natsOf l "faces") (← natsOf l "brushes")
+              (← intOf l "water") (← bytesOf (← l.getObjVal? "ambient")) (← intOf l "minDist"))
+    let r := writeLeafs c t ls
+    let ints (l : List Nat) : List (List Val) := l.map (fun (n : Nat) => [Val.int (n : Int)])
+    pure (Json.mkObj [("leafs", ← packRecs "leafs" layout r.1), ("leaffaces", ← packRecs "leaffaces" layout (ints r.2.1)),
+      ("leafbrushes", ← packRecs "leafbrushes" layout (ints r.2.2.1)),
+      ("mindist", ← packRecs "leafmindisttowater" layout (r.2.2.2.1.map (fun d => [Val.int d]))),
+      ("tabs", Json.mkObj [("faces", Wire.ofNatList r.2.2.2.2.faces), ("brushes", Wire.ofNatList r.2.2.2.2.brushes)])])
+  | "x_nodes" =>
+    let layout ← j.getObjValAs? String "layout"
+    let tj ← j.getObjVal? "tabs"
+    let t : NodeTabs := { planes := ← natsOf tj "planes", leafs := ← natsOf tj "leafs", faces := ← natsOf tj "faces" }
+    let nodes ← natsOf j "nodes"
+    let fuel ← natOf j "fuel"
+    let nj ← (← j.getObjVal? "nd").getArr?
+    let nds ← nj.toList.mapM fun p => do
+      let a ← p.getArr?
+      let o := a[1]!
+      let (b0, b1, b2, b3, b4, b5) ← val6 o
+      pure ((← (a[0]!).getNat?), NodeV.mk (← natOf o "plane") b0 b1 b2 b3 b4 b5
+             (← natsOf o "faces") (← intOf o "area") (← childOf (← o.getObjVal? "neg"))
+             (← childOf (← o.getObjVal? "pos")))
+    let dflt : NodeV := ⟨0, .int 0, .int 0, .int 0, .int 0, .int 0, .int 0, [], 0, .leaf 0, .leaf 0⟩
+    match writeNodes Gen.Bspfmt.findOrExtendBounded (lookupD nds dflt) fuel nodes t with
+    | none => pure (errJson "fuel")
+    | some (recs, nodes', t') =>
+      pure (Json.mkObj [("bytes", ← packRecs "nodes" layout recs), ("nodes", Wire.ofNatList nodes'),
+        ("tabs", Json.mkObj [("planes", Wire.ofNatList t'.planes), ("leafs", Wire.ofNatList t'.leafs), ("faces", Wire.ofNatList t'.faces)])])
   | "gen" =>
     pure (Json.mkObj [
       ("findOrExtendBounded", Json.bool Gen.Bspfmt.findOrExtendBounded),
